@@ -83,6 +83,22 @@ impl Property for C10 {
                 ops.push(HOp::HotReload);
             }
         }
+        // the probe for the inserter race: a compound that loads a leaf, the leaf removed from the cache, then a pass
+        if g.chance(1, 6) {
+            let (owner, leaf) = (u.ids[2].clone(), u.ids[g.below(2) as usize].clone());
+            let recipe = serde_json::to_string(&vec![Ins::Load(Ty::LA, leaf.clone()), Ins::Val(1)]).unwrap();
+            let at = g.below(ops.len() as u64 + 1) as usize;
+            let seq = vec![
+                HOp::Put(leaf.clone(), "a".into(), format!("leaf#{ver}")),
+                HOp::Put(owner.clone(), "rc".into(), recipe),
+                HOp::Load(Ty::RA, owner, false),
+                HOp::Remove(Ty::LA, leaf),
+                HOp::HotReload,
+            ];
+            for (j, o) in seq.into_iter().enumerate() {
+                ops.insert(at + j, o);
+            }
+        }
         (knobs, serde_json::to_value(Work { tree, front, ops }).unwrap())
     }
     fn execute(&self, case: &Case) -> Outcome {
@@ -191,7 +207,68 @@ fn scenario(w: Work) {
             }
             HOp::HotReload => {
                 let before = world.real_contents(&all_ids);
-                world.real(op);
+                // every other pass races with a get_or_insert of an absent key on another thread (a reload that loads
+                // the same key as a nested asset may be inserting it at that moment): the reference the inserter got
+                // must stay the entry of that key, and what it stored must stay what it stored
+                let race_id: Option<String> = if reloader_expected {
+                    // preferably a key that a cached compound loads as a nested asset (and that is absent now): that
+                    // compound is notified, so that the pass loads and inserts the key while the inserter runs
+                    let absent: Vec<&String> = u.ids.iter().filter(|id| !world.model.contains(Ty::LA, id)).collect();
+                    let via_compound = absent.iter().filter(|id| matches!(world.model.tree.files.get(&fkey(id, "a")), Some(FileSt::Data(d)) if !d.starts_with(b"!bad"))).find_map(|id| {
+                        let needle = format!("{{\"Load\":[\"LA\",\"{id}\"]}}");
+                        world.model.cache.keys().filter(|k| k.0.kind() == Kind::Rec).find(|k| match world.model.tree.files.get(&fkey(&k.1, "rc")) {
+                            Some(FileSt::Data(d)) => String::from_utf8_lossy(d).contains(&needle),
+                            _ => false,
+                        }).map(|k| ((*id).clone(), k.1.clone()))
+                    });
+                    match via_compound {
+                        Some((id, owner)) => {
+                            world.src.notify(file_entry(&owner, "rc"));
+                            detsim::count("reach.pass_loads_the_key_the_inserter_wants");
+                            Some(id)
+                        }
+                        None if i % 2 == 0 => absent.first().map(|s| (*s).clone()),
+                        None => None,
+                    }
+                } else {
+                    None
+                };
+                let mut raced: Option<(String, usize, String, bool)> = None;
+                if let (Some(id), Front::Shared(cache)) = (&race_id, &world.front) {
+                    let slot: Shared<Option<(usize, String, bool)>> = shared(None);
+                    detsim::thread::scope(|s| {
+                        let slot2 = slot.clone();
+                        let id2 = id.clone();
+                        s.spawn("inserter", move || {
+                            let mine = <LA as Make>::make_show(7000 + i as u64);
+                            // (start somewhere inside the pass)
+                            for _ in 0..detsim::decide(6) {
+                                detsim::thread::yield_now();
+                            }
+                            let h = cache.get_or_insert::<LA>(&id2, <LA as Make>::make(7000 + i as u64));
+                            let show = h.read().show();
+                            *slot2.lock().unwrap() = Some((h as *const _ as usize, show.clone(), show == mine));
+                        });
+                        cache.hot_reload();
+                    });
+                    raced = slot.lock().unwrap().clone().map(|(a, sh, m)| (id.clone(), a, sh, m));
+                    detsim::count("reach.get_or_insert_races_with_a_pass");
+                } else {
+                    world.real(op);
+                }
+                if let (Some((id, addr, show, mine)), Front::Shared(cache)) = (&raced, &world.front) {
+                    let now = cache.get_cached::<LA>(id).map(|h| (h as *const _ as usize, h.read().show(), crate::props::c18::rid_num(h.last_reload_id())));
+                    detsim::check(now.as_ref().map(|n| n.0) == Some(*addr), "C10/reference-invalidated", || format!("op {i}: a get_or_insert::<LA>({id:?}) that ran while hot_reload was in progress returned the entry at {addr:#x}; the cache now answers {:?} for that key", now.as_ref().map(|n| format!("{:#x}", n.0))));
+                    if let Some((_, show_now, rid)) = now {
+                        if *mine {
+                            detsim::check(show_now == *show && rid == 0, "C10/protected-entry-rewritten", || format!("op {i}: the value stored by a get_or_insert::<LA>({id:?}) racing with a pass was {show:?}; it is now {show_now:?} with reload id {rid}"));
+                            inserted.insert((Ty::LA, id.clone()));
+                        } else {
+                            ever_loaded.insert((Ty::LA, id.clone()));
+                        }
+                        world.model.cache.insert((Ty::LA, id.clone()), crate::model::MEntry { show: show_now, reload: rid, dynamic: !*mine });
+                    }
+                }
                 let after = world.real_contents(&all_ids);
                 for (name, (v0, id0)) in &before {
                     let (tyname, id) = name.split_once(' ').unwrap();
